@@ -555,6 +555,12 @@ func (bs *blockState) runDeferred(ins ssa.Instruction, pv *Val) (recovered bool)
 			if c.IsInvoke() {
 				unsupp("deferred interface call")
 			}
+			e.curDefer = d
+			handled := bs.monCall(f, c.Args, ins)
+			e.curDefer = nil
+			if handled {
+				break
+			}
 			bs.callStatic(f, args, ins, nil)
 		default:
 			if c.IsInvoke() {
